@@ -1,0 +1,6 @@
+//go:build !verif
+
+package cdi
+
+// verifPoint is a no-op unless built with the "verif" build tag.
+func verifPoint(string, string, int) {}
